@@ -302,6 +302,11 @@ def check(rec):
             # raises -- a peer raise firing after the injected one -- supersedes it)
             kinds_seq = [f[0] for f in e['fired']]
             superseded = any(k_.startswith('trace:') and 'raise' in kinds_seq[j + 1:] for j, k_ in enumerate(kinds_seq))
+            # (a terminal fault is not in this per-execution list; the same thing happens when the
+            # doctest has a finally / except block whose own, expected exception replaces it)
+            if any(f_[0].startswith('stream:') for f_ in fired) and 'raise' in kinds_seq and \
+                    any(st['form'] in ('try', 'tryexc', 'chainexc') for st in spec_steps):
+                superseded = True
             if fired and e['how'] == 'returned' and v != 'failed' and not awaits and not superseded:
                 out.append(common.viol('C09.R2', '%s: %s fired while a statement ran but the summary says %s' % (lab, fired[0][0], v),
                                        dtid=e['dtid'], k=e['k']))
